@@ -1,4 +1,7 @@
-// Candidate finding (C14, unit top_hits_merge): the top_hits aggregation depends on how the documents are distributed over segments.
+// STATUS: REPAIRED in /repo by commit "fix: top_hits aggregation broke ties differently depending on the segment layout"; main ran this demo on the repaired tree: all tests pass.
+// The "Recorded" lines below are from the tree BEFORE the fix; unit top_hits_topn now proves the repaired code without the restriction
+// (mutants final_drain_unbounded / merge_into_old_computer restore the defects and are caught).
+// Finding (C14, unit top_hits_topn): the top_hits aggregation depends on how the documents are distributed over segments.
 //
 // TopHitsTopNComputer::merge_fruits (src/aggregation/metric/top_hits.rs) pushes the entries of the other intermediate result into its own
 // TopNComputer.  TopNComputer (src/collector/top_score_collector.rs) resolves ties on the sort key by document address ONLY IF entries
@@ -6,7 +9,7 @@
 // drops every entry whose key does not strictly beat the threshold.  The aggregation merge does not honour that:
 // aggregation::collector::merge_fruits pops the LAST segment's fruit and merges the fruits of segments 0, 1, .. into it, and
 // IntermediateAggregationResults::merge_fruits is public and is called in arbitrary order by distributed users.
-// Same defect class as F20 (merge_top_k, fixed); the Verus unit top_hits_merge proves "merge = best N of the union" only for merges in
+// Same defect class as F20 (merge_top_k, fixed); the Verus unit top_hits_topn proves "merge = best N of the union" only for merges in
 // which the incoming entries have larger addresses than everything pushed before (or in which nothing is dropped).
 //
 // Ordinary integration test, public API only: copy into tests/ of a copy of the tree,
